@@ -32,8 +32,9 @@ impl<'a> Generator<'a> {
         // If we don't have all input, we return `None`
         let mut eoi = TokenStream::default();
 
-        // If the input buffer is a prefix and some transitions are still possible, return None
-        if !state_data.normal.is_empty() {
+        // If the input buffer is a prefix and some transitions are still possible, return None.
+        // An end-of-input edge cannot be taken either: the end of a prefix is not the end of the input.
+        if !state_data.normal.is_empty() || state_data.eoi.is_some() {
             eoi.append_all(quote! {
                 if lex.is_prefix() {
                     lex.end(lex.offset());
